@@ -765,6 +765,29 @@ func TestC07(t *testing.T) {
 		st.note("growth-rate %s", n)
 	}
 	rapidPart(t, c07Prop, st, "rapid", pick(12000, 100000), c07Gen)
+	if t.Failed() {
+		return
+	}
+	// location grammar: text assembled from the INSDC location grammar with odd numbers (inverted ranges, leading
+	// zeros, huge values, legacy spellings), plain or with one character-level mutation, handed to AsLocation, to
+	// AsLocator, or placed on the key line of a feature inside a GenBank record / a bare feature table
+	rapidPart(t, c07Prop, st, "rapid-locations", pick(25000, 150000), func(t *rapid.T) c07Case {
+		s := c06GenText(t, 3)
+		how := "grammar"
+		if rapid.IntRange(0, 2).Draw(t, "mut") == 0 {
+			s = c07MutateString(t, s, "0123456789.^<>,() jcor-+")
+			how = "mutated"
+		}
+		switch rapid.IntRange(0, 9).Draw(t, "where") {
+		case 0:
+			return c07Case{Target: "scan", Input: []byte(gbLocus + gbFeatHdr + "     gene            " + s + "\n" + qIndent + "/gene=\"g\"\n" + gbTail), How: how + " feature-location", Trunc: -1}
+		case 1:
+			return c07Case{Target: "table", Input: []byte("gene            " + s + "\n                /gene=\"g\"\n"), How: how + " feature-location", Trunc: -1}
+		case 2:
+			return c07Case{Target: "locator", Input: []byte(s + rapid.SampledFrom([]string{"", "@^", "@^-1..$+1"}).Draw(t, "at")), How: how, Trunc: -1}
+		}
+		return c07Case{Target: "location", Input: []byte(s), How: how, Trunc: -1}
+	})
 }
 
 // ---- native fuzz targets (thorough) --------------------------------------------------------------
